@@ -956,6 +956,11 @@ impl ConnectionPool {
         }
 
         guard[address.shard].insert(address.clone(), (reason, now));
+        #[cfg(feature = "verif_hooks")]
+        crate::verif::event(
+            "ban.done",
+            &format!("\"host\":\"{}\",\"port\":{}", address.host, address.port),
+        );
     }
 
     /// Clear the replica to receive traffic again. Takes effect immediately
